@@ -27,23 +27,24 @@ type BatchSpec struct {
 
 // Scenario describes one controlled run.
 type Scenario struct {
-	Name    string        `json:"name"`
-	Opts    ctl.Opts      `json:"opts"`
-	Clients [][]BatchSpec `json:"clients"`
-	Readers int           `json:"readers"` // reader goroutines
-	ReaderRounds int      `json:"reader_rounds"`
-	Backup       bool     `json:"backup"`       // held readers are backed up (Reader.Backup) before they are closed; the restored copy must show the same
-	Hammer       int      `json:"hammer"`       // > 0: the fresh reader taken after a root replacement (it IS the current root) is searched by that many goroutines at once
-	Churn        int      `json:"churn"`        // free-running only: goroutines that do nothing but Reader()/Close() in parallel with the batches
-	FreeReaders  int      `json:"free_readers"` // free-running only: goroutines that obtain readers in parallel with the batches and search each from 3 goroutines at once
-	Images  bool          `json:"images"`
-	Second  bool          `json:"second"` // attempt a second writer on the locked directory
-	Ids     []string      `json:"ids"`
-	NoClose bool          `json:"no_close"`
-	Free      bool        `json:"free"` // free-running: gates never block, goroutines run in parallel; events are ordered by their sequence numbers
-	MergeWindow int       `json:"merge_window"` // hold a merge in flight until this many batches landed in its window
-	RootObs   bool        `json:"root_obs"` // observe a fresh reader after every root replacement
-	CloseLast bool        `json:"close_last"` // Close is called only when nothing else can run (background work completes)
+	Name         string        `json:"name"`
+	Opts         ctl.Opts      `json:"opts"`
+	Clients      [][]BatchSpec `json:"clients"`
+	Readers      int           `json:"readers"` // reader goroutines
+	ReaderRounds int           `json:"reader_rounds"`
+	DoubleClose  bool          `json:"double_close"` // free-running only: a second goroutine calls Close at the same time (every Close that returns must leave a closed, unlocked index)
+	Backup       bool          `json:"backup"`       // held readers are backed up (Reader.Backup) before they are closed; the restored copy must show the same
+	Hammer       int           `json:"hammer"`       // > 0: the fresh reader taken after a root replacement (it IS the current root) is searched by that many goroutines at once
+	Churn        int           `json:"churn"`        // free-running only: goroutines that do nothing but Reader()/Close() in parallel with the batches
+	FreeReaders  int           `json:"free_readers"` // free-running only: goroutines that obtain readers in parallel with the batches and search each from 3 goroutines at once
+	Images       bool          `json:"images"`
+	Second       bool          `json:"second"` // attempt a second writer on the locked directory
+	Ids          []string      `json:"ids"`
+	NoClose      bool          `json:"no_close"`
+	Free         bool          `json:"free"`         // free-running: gates never block, goroutines run in parallel; events are ordered by their sequence numbers
+	MergeWindow  int           `json:"merge_window"` // hold a merge in flight until this many batches landed in its window
+	RootObs      bool          `json:"root_obs"`     // observe a fresh reader after every root replacement
+	CloseLast    bool          `json:"close_last"`   // Close is called only when nothing else can run (background work completes)
 }
 
 // Scheduler picks the next gate to release.
@@ -59,11 +60,11 @@ type PrioSched struct {
 	// steps LowFrom..LowTo: lets work pile up for it.
 	LowProc        string
 	LowFrom, LowTo int
-	Seed    int64
-	rng     *rand.Rand
-	prio    map[string]int
-	changes map[int]bool
-	Picks   []string
+	Seed           int64
+	rng            *rand.Rand
+	prio           map[string]int
+	changes        map[int]bool
+	Picks          []string
 }
 
 func NewPrioSched(seed int64, nchanges, horizon int) *PrioSched {
@@ -111,7 +112,9 @@ func (p *PrioSched) Choose(step int, gates []*ctl.Gate) int {
 	return bi
 }
 
-func (p *PrioSched) Describe() any { return map[string]any{"kind": "prio", "seed": p.Seed, "picks": p.Picks} }
+func (p *PrioSched) Describe() any {
+	return map[string]any{"kind": "prio", "seed": p.Seed, "picks": p.Picks}
+}
 
 // ---- deviation scheduler: deterministic base order with chosen deviations ----
 
@@ -439,11 +442,11 @@ func Run(t *testing.T, scn Scenario, sched Scheduler, workDir string, uidBase *i
 						dst := fmt.Sprintf("%s.bak-%s-%d", scn.Opts.Path, proc, k)
 						_ = os.MkdirAll(dst, 0o755) // Backup does not create its destination
 						if err := r.Backup(dst, nil); err != nil {
-							c.LogP(proc, "ReaderObs", "r", proc, "obs", ctl.ErrObs("backup: " + err.Error()), "reps", 0, "final", true, "backup", true)
+							c.LogP(proc, "ReaderObs", "r", proc, "obs", ctl.ErrObs("backup: "+err.Error()), "reps", 0, "final", true, "backup", true)
 						} else {
 							SegVersion = scn.Opts.SegVersion
 							if rd, err := bluge.OpenReader(cfgFor(dst, false)); err != nil {
-								c.LogP(proc, "ReaderObs", "r", proc, "obs", ctl.ErrObs("restore: " + err.Error()), "reps", 0, "final", true, "backup", true)
+								c.LogP(proc, "ReaderObs", "r", proc, "obs", ctl.ErrObs("restore: "+err.Error()), "reps", 0, "final", true, "backup", true)
 							} else {
 								ob := ctl.Observe(rd, scn.Ids, true)
 								_ = rd.Close()
@@ -497,6 +500,16 @@ func Run(t *testing.T, scn Scenario, sched Scheduler, workDir string, uidBase *i
 			closing.Store(true)
 			_ = s.Close()
 		}()
+		if scn.Free && scn.DoubleClose {
+			wg.Add(1)
+			go func() {
+				defer wg.Done()
+				c.Register("closer2")
+				<-clientsDone
+				closing.Store(true)
+				_ = s.Close()
+			}()
+		}
 
 		allDone := make(chan struct{})
 		go func() { wg.Wait(); close(allDone) }()
